@@ -25,15 +25,19 @@ def ideal(cfg, workers=8):
 def make(pid, quick, thorough, rule, max_paths_quick=1500, neg=None):
     def run(tier, seed):
         cfgs = quick if tier == "quick" else thorough
-        viol, cov = core_engine.run_cfgs(pid, cfgs, seed, max_paths=(max_paths_quick // len(cfgs)) if tier == "quick" else None)
+        jobs = [lambda: ideal("Ideal_quick.cfg" if tier == "quick" else "Ideal_thorough.cfg", workers=4)]
+        if neg:
+            jobs.append(lambda: tlc.run_tlc("core", "Geoh5Core", neg[0], workers=2, keep_lines=False, heap="4g"))
+        viol, cov, side = core_engine.run_cfgs(pid, cfgs, seed, side_jobs=jobs,
+                                               max_paths=(max_paths_quick // len(cfgs)) if tier == "quick" else None)
         mine = [v for v in viol if v.get("prop") is None or pid in v["prop"]]
-        ires = ideal("Ideal_quick.cfg" if tier == "quick" else "Ideal_thorough.cfg")
+        ires = side[0]
         cov["ideal_design"] = {"cfg": "Ideal_" + tier, "distinct_states": ires.distinct, "states_generated": ires.generated,
                                "result": "no invariant violated incl. NoOrphansWhenClosed"}
         cov["states"] += ires.distinct
         cov["transitions"] += ires.generated
         if neg:
-            nres = tlc.run_tlc("core", "Geoh5Core", neg[0], workers=4, keep_lines=False, heap="4g")
+            nres = side[1]
             if neg[1] not in nres.violated:
                 raise tlc.MachineryError(f"negative control {neg[0]} did not violate {neg[1]}: {nres.violated}")
             cov["negative_control"] = f"{neg[0]} violates {neg[1]} as expected (as-built close keeps unreachable nodes)"
